@@ -6,7 +6,6 @@ Lemma post_mono {A} k s s2 (rs : outcome A * dec) :
   d_buf s2 = d_buf s -> rem s2 <= rem s -> post k s2 rs -> post k s rs.
 Proof.
   intros Hb Hr (H1 & H2 & H3 & H4 & H5 & H6). splits; auto; try congruence; try lia.
-  intros a Ha. specialize (H6 a Ha). lia.
 Qed.
 
 (* fn byte_array *)
@@ -17,26 +16,25 @@ Proof.
   - destruct Hs as ((?&?)&_). lia.
   - cbn [blk_loop]. destruct (blk =? 0) eqn:E0; [apply post_ret, Hs|].
     pose proof Hs as (Hp & Hu & He & Hl & Hw).
-    unfold bind, ensure_bytes, get, lift, slice, idx, set_pos, ret, fail.
+    unfold ensure_bytes; unfold bind, get, lift, slice, idx, set_pos, ret, fail.
     cbn [fst snd d_buf d_pos d_used]. unfold d_len in *.
     destruct (blk + 1 >? Z.of_nat (length (d_buf s)) - d_pos s) eqn:E1.
     { apply post_fail; [exact Hs|]. unfold E_BYTES, E_FUEL. lia. }
     repeat (match goal with
             | |- context [if ?c then _ else _] => destruct c eqn:?; try (exfalso; lia)
             end; cbn [fst snd d_buf d_pos d_used]).
-    eapply post_mono; [| |apply IH].
-    + reflexivity.
-    + unfold rem, d_len. cbn [d_buf d_pos d_used]. lia.
-    + unfold dinv, d_len. cbn [d_buf d_pos d_used]. splits; auto; lia.
-    + reflexivity.
-    + apply nth_wf; [exact Hw | lia].
-    + unfold d_len. cbn [d_buf d_pos d_used]. lia.
+    match goal with |- post 0 s (blk_loop f ?b ?a ?s2) =>
+      assert (Hd : dinv s2) by (unfold dinv, d_len; cbn [d_buf d_pos d_used]; dsplits; auto; lia);
+      assert (Hr : rem s2 <= rem s) by (unfold rem, d_len; cbn [d_buf d_pos d_used]; lia);
+      apply (post_mono 0 s s2); [reflexivity | exact Hr | apply IH; [exact Hd | cbn [d_used]; lia | | unfold d_len; cbn [d_buf d_pos d_used]; lia]]
+    end.
+    apply nth_wf; [exact Hw | lia].
 Qed.
 
 Lemma good_byte_array : good 0 dec_byte_array.
 Proof.
   intros s Hs. pose proof Hs as (Hp & Hu & He & Hl & Hw).
-  unfold dec_byte_array, bind, ensure_bytes, get, lift, idx, set_pos, ret, fail.
+  unfold dec_byte_array, ensure_bytes; unfold bind, get, lift, idx, set_pos, ret, fail.
   cbn [fst snd d_buf d_pos d_used]. unfold d_len in *.
   destruct (negb (d_used s =? 0)) eqn:E0. { apply post_fail; [exact Hs | discriminate]. }
   destruct (1 >? Z.of_nat (length (d_buf s)) - d_pos s) eqn:E1.
@@ -44,13 +42,12 @@ Proof.
   repeat (match goal with
           | |- context [if ?c then _ else _] => destruct c eqn:?; try (exfalso; lia)
           end; cbn [fst snd d_buf d_pos d_used]).
-  eapply post_mono; [| |apply blk_loop_ok].
-  - reflexivity.
-  - unfold rem, d_len. cbn [d_buf d_pos d_used]. lia.
-  - unfold dinv, d_len. cbn [d_buf d_pos d_used]. splits; auto; lia.
-  - cbn [d_used]. lia.
-  - apply nth_wf; [exact Hw | lia].
-  - unfold d_len, dec_fuel. cbn [d_buf d_pos d_used]. lia.
+  match goal with |- post 0 s (blk_loop ?fu ?b ?a ?s2) =>
+    assert (Hd : dinv s2) by (unfold dinv, d_len; cbn [d_buf d_pos d_used]; dsplits; auto; lia);
+    assert (Hr : rem s2 <= rem s) by (unfold rem, d_len; cbn [d_buf d_pos d_used]; lia);
+    apply (post_mono 0 s s2); [reflexivity | exact Hr | apply blk_loop_ok; [exact Hd | cbn [d_used]; lia | | unfold d_len, dec_fuel; cbn [d_buf d_pos d_used]; lia]]
+  end.
+  apply nth_wf; [exact Hw | lia].
 Qed.
 
 Lemma good_bytes : good 0 dec_bytes.
@@ -161,7 +158,7 @@ Lemma run_script_ok ops : Forall op_wf ops -> forall s, dinv s ->
   /\ dinv (snd (run_script ops s)) /\ d_buf (snd (run_script ops s)) = d_buf s.
 Proof.
   induction 1 as [|o ops Ho Hops IH]; intros s Hs.
-  - cbn. splits; auto. intros r [].
+  - cbn. splits; auto; try tauto.
   - cbn [run_script].
     destruct (good_op o Ho s Hs) as (H1 & H2 & H3 & H4 & H5 & H6).
     destruct (run_op o s) as [r s'] eqn:E. cbn [fst snd] in *.
